@@ -1,14 +1,46 @@
 """Texts of MANIFEST.json per property."""
+import subprocess
 
-HOOK_COMMITS = ["2eabce0"]
+def _hooks():
+    try:
+        out = subprocess.check_output(["git", "-C", "/repo", "log", "--format=%h %s"], text=True)
+        return [l.split()[0] for l in out.splitlines() if l.split(" ", 1)[1].startswith("verif:")]
+    except Exception:
+        return ["2eabce0"]
+
+HOOK_COMMITS = _hooks()
 
 NOT_APPLICABLE = {}
 
+_TECH = "Lean 4 proof over an executable model + {tie}"
+
+def _t(level, ref, note, tie):
+    return {"level": level, "design_ref": ref, "note": note, "technique": _TECH.format(tie=tie)}
+
+RT_NOTE = ("Trusted: Lean kernel; the LTS as a model of Go's unbuffered channels/select/context/goroutines (modelled, not verified); "
+           "fairness of the Go scheduler; the tie is the regenerated inventory of every channel operation, goroutine, context check and call site (bridge theorems) "
+           "plus scenario runs of real programs with property oracles.")
+
 TEXT = {
-    "C09": {
-        "level": "Machine-checked Lean 4 theorems about an executable model of detectOneMsg/readAnsiInputs, for every key table, every byte string and every division into reads: no panic (all index expressions and the explicit mouse panic), width in range, zero width only for an unterminated paste or an open rune run at the end of a full buffer, byte-exact accounting of consumed runs + left-over, termination of the decode loop. The model is tied to the code by differential runs (detect/reader streams) on every check.",
-        "design_ref": "DESIGN.md 5.2 / C09",
-        "note": "Trusted: Lean kernel; the model of Go's utf8.DecodeRune, strconv.Atoi and the two regexes (validated by the streams); the generators. Not modelled here: the select on ctx.Done around the channel send (covered dynamically under C04).",
-        "technique": "Lean 4 proof over an executable model + differential correspondence with the Go code",
-    },
+    "C01": _t("Machine-checked invariants of a labelled transition system of the message pipeline (any number of senders with any scripts, event loop, dispatcher, command goroutines, cancellation) for EVERY program and EVERY schedule: model = fold of Update over the Update log; per-sender received messages are a subsequence of what was handed to Send and, before cancellation, exactly the completed Sends; without a filter the Update log is the received log minus quit/interrupt/batch; only the event loop's step changes the model.",
+              "DESIGN.md 5.0 / C01", RT_NOTE, "regenerated source facts (bridge theorems) + scenario oracles on real programs"),
+    "C02": _t("Machine-checked invariants of the pipeline LTS for every program and schedule: each hand-over of a non-nil command starts exactly one goroutine (nil: none); every issued command is handed over unless the loop left by cancellation; a command goroutine runs its command at most once and sends nothing before; its result is received at most once (exactly once before cancellation); executing a command leaves the loop untouched; a goroutine in any state disables no step of any other process; BatchMsg never reaches Update; Batch as a pure function.",
+              "DESIGN.md 5.0 / C02", RT_NOTE + " 'Eventually invoked' is proved modulo scheduler fairness.", "regenerated source facts + scenario oracles (command trees, blocking commands, reused slices)"),
+    "C09": _t("Machine-checked theorems about an executable model of detectOneMsg/readAnsiInputs, for every key table, every byte string and every division into reads: no panic, width in range, zero width only for the documented hold-back reasons, byte-exact accounting of consumed runs + left-over, termination of the decode loop, at end of input only an unterminated paste stays undelivered.",
+              "DESIGN.md 5.2 / C09", "Trusted: Lean kernel; the model of Go's utf8.DecodeRune/FullRune, strconv.Atoi and the two regexes (validated by the streams); the generators. Not modelled here: the select on ctx.Done around the channel send (covered dynamically under C04).",
+              "differential correspondence (detect/reader streams) with the Go code"),
+    "C10": _t("Machine-checked theorems for every payload without the end marker and every division into reads after the start marker: exactly one paste message with the valid runes of the payload, nothing inside interpreted, nothing emitted before the end marker completes, events after it decoded as usual; the paste string form can never equal a shortcut.",
+              "DESIGN.md 5.2 / C10", "Trusted as for C09; completely filled 256-byte reads need the table to have no key starting with the paste start marker (bridge theorem start_free on the regenerated table).",
+              "differential correspondence (reader stream incl. every cut position of short pastes) with the Go code"),
+    "C11": _t("Machine-checked theorems for ALL naturals b, x, y (decimal round trip, saturation at 2^63-1) and all X10 bytes: an SGR or X10 report followed by anything decodes to exactly the event an independent xterm specification gives (button, action, modifiers, zero-based cell, deprecated type) and consumes exactly its own bytes; wheel/motion/release rules; agreement of the two encodings.",
+              "DESIGN.md 5.2 / C11", "Trusted as for C09; the xterm specification in Tea/Input/XtermSpec.lean is the reading of xterm ctlseqs used.",
+              "differential correspondence (detect stream: all 256 SGR codes x M/m, all X10 codes) with the Go code"),
+    "C16": _t("Machine-checked: the filter log equals the received log (consulted once per message, in order) with the model current at that point; the loop's reaction to a filtered message is exactly its reaction, in a program without filter, to the filter's result (nil: nothing at all); a whole filtered run equals the unfiltered run on the effective messages.",
+              "DESIGN.md C16", RT_NOTE, "regenerated source facts (event loop head/tail shape) + scenario oracles with seeded filter policies"),
+    "C19": _t("Machine-checked about the renderer model: an unchanged or empty frame writes nothing and changes nothing; writes are silent and coalesce; an unchanged line costs at most one byte (exactly LF or nothing); a changed line at most its length + 9; the flush byte bound over changed lines; fps clamp 1..120 with default 60 and the resulting frame interval.",
+              "DESIGN.md 5.1 / C19", "Trusted: Lean kernel; ASCII text metric; PARTIAL BY NATURE for 'at most one render per frame interval in real time': the ticker is Go's time.Ticker; proved is that only ticks flush (call-site fact), writes between ticks coalesce and the interval value.",
+              "byte-exact differential correspondence (render, fps streams) with the real renderer"),
+    "C20": _t("Machine-checked for every instant and positive duration (unbounded integers): Every's delay is positive, at most one period and ends on the NEXT period boundary; Tick/Every report a time not before created+d / the next boundary; the callback gets the firing time.",
+              "DESIGN.md C20", "PARTIAL BY NATURE: that a Go timer does not fire before its duration elapsed is the runtime's contract (structure field Timer.notEarly), sampled by the timing scenario.",
+              "differential correspondence (Every's delay vs Go's time package) + source facts (bodies of Every/Tick) + timing runs"),
 }
